@@ -70,7 +70,9 @@ Schema(c) ==
                        TagR("wn", TNull(Str), red2),
                        TagR("wl", TNull(TList(Str, Unset, Unset)), red),
                        TagR("wm", TNull(TMap(I32)), red2),
-                       [n |-> "wy", t |-> TNull(Str), omit |-> "c1", red |-> red] >>))
+                       [n |-> "wy", t |-> TNull(Str), omit |-> "c1", red |-> red],
+                       \* a member without a value can be omitted too
+                       TagO("wz", TVoid, "c2") >>))
 
 Patched == [B |-> {"bp"}]
 Roots == {TRef("B"), TRef("D"), TRef("W"), TRef("P"),
